@@ -329,7 +329,8 @@ def check(chk):
             if not any(m["case"] == i and m["fmt"] == fm and m["rule"] == rule for m in mism):
                 raise C.Undecided("negative control %d (%s) not flagged for %s: the replay compares nothing" % (i, rule, fm))
     for v in VARIANTS:   # the two wrong-tree controls are well-formed archives, so they pass through every variant too
-        if not any(m["case"] in (0, 1) and m["fmt"] == v and m["rule"] == "tree-mismatch" for m in mism):
+        # (an implementation that cannot read the variant at all is flagged as rejected-wellformed instead)
+        if not any(m["case"] in (0, 1) and m["fmt"] == v and m["rule"] in ("tree-mismatch", "rejected-wellformed") for m in mism):
             raise C.Undecided("negative control not flagged for container variant %s" % v)
     mism = [m for m in mism if m["case"] >= len(negs)]
 
